@@ -407,7 +407,10 @@ EMPTY_SITES = ['<p tal:content="">x</p>', '<p tal:replace="">x</p>', '<p tal:con
                '<p tal:repeat="item ">x</p>', '<p tal:on-error="">${1/0}</p>', '<p tal:replace="structure ">x</p>', '<p tal:switch="">x</p>',
                '<p tal:switch="1"><b tal:case="">x</b></p>', '<p tal:content="python:">x</p>', '<p tal:content="not:">x</p>',
                '<p tal:content="nothing | ">x</p>', '<p tal:omit-tag="not:">x</p>', '<p tal:define="x ">x</p>',
-               '<p tal:content="structure python: ">x</p>', '<p tal:attributes="a python:">x</p>', '<p tal:content="exists:">x</p>']
+               '<p tal:content="structure python: ">x</p>', '<p tal:attributes="a python:">x</p>', '<p tal:content="exists:">x</p>',
+               # an interpolation holding nothing but white space is an expression, and an invalid one
+               '<p>a ${ } b</p>', '<p a="${ }">x</p>', '<p>a ${\n} b</p>', '<!-- c ${  } -->', '<![CDATA[${ }]]>',
+               '<p tal:content="string:a ${ } b">x</p>', "<p a='x ${\t}'>x</p>"]
 EMPTY_WRAPPERS = [('reached', '%s', None), ('reached-after-text', 'before\n  <i>t</i> %s after', None),
                   ('reached-in-repeat', '<ul><li tal:repeat="k (1, 2)">%s</li></ul>', None),
                   ('dead-false-condition', '[<div tal:condition="False">%s</div>]', '[]'),
@@ -646,7 +649,7 @@ def layer_metal_and_error_handler_sites(ctx, n):
         # invalid syntax, or an expression type nobody registered
         bad = rng.choice(BADS + ['nosuchtype: x', 'path: a/b'])
         site = rng.choice(['macro-body', 'macro-body-used', 'slot-default', 'filler', 'on-error', 'on-error-in-macro', 'macro-attribute',
-                           'plain-content', 'plain-interpolation', 'later-pipe-alternative'])
+                           'plain-content', 'plain-interpolation', 'later-pipe-alternative', 'superseded-filler', 'filler-of-unknown-slot'])
         lead = rng.choice(['', '\n', 'é <!-- c -->\n  '])
         B = '${%s}' % bad
         if site == 'macro-body':
@@ -659,6 +662,13 @@ def layer_metal_and_error_handler_sites(ctx, n):
         elif site == 'filler':
             src = ('<tal:c condition="False"><div metal:define-macro="m%d"><i metal:define-slot="s">d</i></div></tal:c>'
                    '<div metal:use-macro="template.macros[\'m%d\']"><u metal:fill-slot="s"><p tal:condition="reach">%s</p></u></div>' % (case, case, B))
+        elif site == 'superseded-filler':
+            # two fillers of one slot name: the later one is shown, the earlier one is still part of the template
+            src = ('<tal:c condition="False"><div metal:define-macro="m%d"><i metal:define-slot="s">d</i></div></tal:c>'
+                   '<div metal:use-macro="template.macros[\'m%d\']"><u metal:fill-slot="s">%s</u><u metal:fill-slot="s">ok</u></div>' % (case, case, B))
+        elif site == 'filler-of-unknown-slot':
+            src = ('<tal:c condition="False"><div metal:define-macro="m%d"><i metal:define-slot="s">d</i></div></tal:c>'
+                   '<div metal:use-macro="template.macros[\'m%d\']"><u metal:fill-slot="zz">%s</u></div>' % (case, case, B))
         elif site == 'on-error':
             src = '<div tal:on-error="%s">${1/0 if reach else 1}</div>' % bad
         elif site == 'on-error-in-macro':
@@ -703,7 +713,7 @@ def layer_metal_and_error_handler_sites(ctx, n):
                 got = (e.args[0], str(e.token), e.offset)
             except Exception as e:
                 got = ('other', type(e).__name__, str(e).split('\n')[0][:80])
-            want = strict if reach else 'rendered'
+            want = strict if reach and site not in ('superseded-filler', 'filler-of-unknown-slot') else 'rendered'
             if got != want:
                 ctx.violation('deferred-error-differs-from-strict-error:' + site,
                               'template %r reach=%d: non-strict %r, expected %r (strict compilation: %r)' % (src, reach, got, want, strict), replay)
